@@ -388,13 +388,15 @@ pub struct Model {
     pub mac_crash_info: Vec<u64>,
     /// with `deep` on a CPU walked by scanning: the word below each return address (unused by the scan) holds this
     pub deep_stale: Option<u64>,
+    /// bytes of the code region that lie BEFORE the address in `code` (the instruction is then not at the region's start)
+    pub code_lead: usize,
 }
 pub const HEADER_TIME: u64 = 1262805309; // fixed by minidump-synth
 pub const STACK_BASE: u64 = 0x7000_0000;
 
 impl Model {
     pub fn new(cpu: CpuK, platform_id: u32) -> Model {
-        Model { cpu, platform_id, threads: vec![], thread_names: vec![], exc: None, bp: None, modules: vec![], unloaded: vec![], maps: MapsM::None, misc: None, status: None, lsb: None, code: None, syms: vec![], gpr_fill: None, deep: None, rbx: None, null_base: false, effective_address: None, deep_ra: None, mac_crash_info: vec![], deep_stale: None }
+        Model { cpu, platform_id, threads: vec![], thread_names: vec![], exc: None, bp: None, modules: vec![], unloaded: vec![], maps: MapsM::None, misc: None, status: None, lsb: None, code: None, syms: vec![], gpr_fill: None, deep: None, rbx: None, null_base: false, effective_address: None, deep_ra: None, mac_crash_info: vec![], deep_stale: None, code_lead: 0 }
     }
     pub fn os(&self) -> OsK {
         os_of(self.platform_id)
@@ -562,7 +564,9 @@ pub fn build(m: &Model) -> Vec<u8> {
         }
     }
     if let Some((addr, bytes)) = &m.code {
-        d = d.add_memory(synth::Memory::with_section(bytes_section(bytes), *addr));
+        let mut region = vec![0x90u8; m.code_lead];
+        region.extend_from_slice(bytes);
+        d = d.add_memory(synth::Memory::with_section(bytes_section(&region), *addr - m.code_lead as u64));
     }
     if let Some(x) = &m.exc {
         let mut ex = synth::Exception::new(e);
@@ -1048,7 +1052,13 @@ pub fn gen_access_kinds(_tier: Tier) -> Gen {
         x.ctx_ip = 0x4000_2000;
         x.ctx_sp = RSP_MENU[d[1] as usize];
         let mut code = ACCESS_INSTRS[d[0] as usize].1.to_vec();
-        code.resize(16, 0x90);
+        // for every other stack pointer the instruction sits in the last 8 bytes of its memory region, 8 bytes in
+        if d[1] % 2 == 1 {
+            code.resize(8, 0x90);
+            m.code_lead = 8;
+        } else {
+            code.resize(16, 0x90);
+        }
         m.code = Some((0x4000_2000, code));
         m.gpr_fill = Some(if d[3] == 0 { 0 } else { 0x10010 });
         m.exc = Some(x);
